@@ -50,16 +50,23 @@ Proof.
   destruct H as [H _]. destruct (H sc c Hc Hw Hs) as [g Bg]. exists (Some g). rewrite Bg. reflexivity.
 Qed.
 
-Lemma total_params (k : pkind) ps :
-  forallb (wfk KParam) ps = true ->
+Lemma total_params (k : pkind) ps sc j f :
+  Forall TotalP' ps -> forallb (wfk KParam) ps = true -> existsb (scan sc) ps = false ->
   exists gs, mapo (fun p => match p with
-                            | PParam n d => Some (n, k, match d with Some d' => build ctx0 d' | None => None end)
+                            | PParam n d =>
+                                match d with
+                                | Some d' => match build (mkCtx NoParse false j f) d' with Some g => Some (n, k, Some g) | None => None end
+                                | None => Some (n, k, None)
+                                end
                             | _ => None
                             end) ps = Some gs.
 Proof.
-  induction ps as [|p ps IH]; simpl; intros H; [exists []; reflexivity|].
-  apply andb_prop in H. destruct H as [Hp Hps]. destruct (IH Hps) as [gs Bgs].
-  destruct p; try (cbn in Hp; discriminate Hp). rewrite Bgs. eexists; reflexivity.
+  intros H Hw Hs. apply forallb_Forall in Hw. apply existsb_false_Forall in Hs.
+  induction H as [|p ps [_ Hp] _ IH]; [exists []; reflexivity|].
+  inversion Hw; subst. inversion Hs; subst. destruct (IH H2 H4) as [gs Bgs]. simpl.
+  destruct p; try (cbn in H1; discriminate H1). cbn in H1. cbn [C03_spec.scan] in H3. simpl in Hp. rewrite Bgs.
+  destruct default as [d'|]; [|eexists; reflexivity]. simpl in Hp.
+  destruct (Hp sc (mkCtx NoParse false j f) eq_refl H1 H3) as [g Bg]. rewrite Bg. eexists; reflexivity.
 Qed.
 
 Ltac tot_step sc :=
@@ -104,8 +111,9 @@ Proof.
   - (* PDictItem *) split; [intros sc c Hc Hwf; discriminate Hwf|]. destruct H0 as [Hv _]. split; [|assumption].
     destruct k; simpl in *; [destruct H; assumption|exact I].
   - (* PLambda *) tstart.
-    destruct (total_params PO po ltac:(assumption)) as [a Ba]. destruct (total_params PK pk ltac:(assumption)) as [b Bb].
-    destruct (total_params KO ko ltac:(assumption)) as [d Bd]. rewrite Ba, Bb, Bd. eexists; reflexivity.
+    destruct (total_params PO po sc xj xf H ltac:(assumption) ltac:(assumption)) as [a Ba].
+    destruct (total_params PK pk sc xj xf H0 ltac:(assumption) ltac:(assumption)) as [b Bb].
+    destruct (total_params KO ko sc xj xf H1 ltac:(assumption) ltac:(assumption)) as [d Bd]. rewrite Ba, Bb, Bd. eexists; reflexivity.
   - (* PParam *) split; [intros sc c Hc Hwf; discriminate Hwf|]. destruct d; simpl in *; [destruct H; assumption|exact I].
   - (* PFormattedValue *) destruct H as [Hv _].
     split; [|exact I]. intros sc [m xs xj xf] Hm Hwf Hs. simpl in Hm. subst m. cbn in Hwf. split_andb. cbn [C03_spec.scan] in Hs. split_orb.
@@ -324,11 +332,15 @@ Ltac nstart :=
   repeat match goal with H : NamesP' _ |- _ => destruct H as [H _] end;
   binv Hb; autorewrite with names_eq; cbn [src_names]; rewrite ?flat_map_app; repeat nm_step; try reflexivity.
 
-Lemma params_names (k : pkind) ps a :
+Lemma params_names (k : pkind) ps a j f :
   is_variadic k = false ->
   Forall NamesP' ps -> forallb (wfk KParam) ps = true -> existsb (scan true) ps = false ->
   mapo (fun p => match p with
-                 | PParam n d => Some (n, k, match d with Some d' => build ctx0 d' | None => None end)
+                 | PParam n d =>
+                     match d with
+                     | Some d' => match build (mkCtx NoParse false j f) d' with Some g => Some (n, k, Some g) | None => None end
+                     | None => Some (n, k, None)
+                     end
                  | _ => None
                  end) ps = Some a ->
   flat_map (fun p : string * pkind * option gexpr => if is_variadic (snd (fst p)) then [] else onames (snd p)) a
@@ -340,11 +352,13 @@ Proof.
   - inversion Hw; subst. inversion Hs; subst. simpl in Hb.
     destruct x as [| | | | | | | | | | | | | | | | | | | | |pn d| | | | | | | | | | | |]; try discriminate Hb.
     cbn in H1. cbn [C03_spec.scan] in H3. simpl in Hx.
-    destruct (mapo _ l) eqn:El; [|discriminate Hb]. inversion Hb; subst. cbn [flat_map fst snd src_names].
-    rewrite Hk, (IH H2 H4 l0 eq_refl). f_equal.
-    destruct d as [dd|]; [|reflexivity]. simpl in Hx.
-    destruct (proj1 (build_total_all dd) true ctx0 eq_refl H1 H3) as [gd Bd]. rewrite Bd. simpl.
-    apply (Hx ctx0 gd eq_refl H1 H3 Bd).
+    destruct d as [dd|].
+    + simpl in Hx. destruct (build (mkCtx NoParse false j f) dd) as [gd|] eqn:Bd; [|discriminate Hb].
+      destruct (mapo _ l) eqn:El; [|discriminate Hb]. inversion Hb; subst. cbn [flat_map fst snd src_names onames].
+      rewrite Hk, (IH H2 H4 l0 eq_refl). f_equal.
+      apply (Hx (mkCtx NoParse false j f) gd eq_refl H1 H3 Bd).
+    + destruct (mapo _ l) eqn:El; [|discriminate Hb]. inversion Hb; subst. cbn [flat_map fst snd src_names onames].
+      rewrite Hk, (IH H2 H4 l0 eq_refl). reflexivity.
 Qed.
 
 Theorem names_all : forall e, NamesP' e.
@@ -371,9 +385,9 @@ Proof.
   - (* PDictItem *) split; [intros c g Hc Hwf; discriminate Hwf|]. destruct H0 as [Hv _]. split; [|assumption].
     destruct k; simpl in *; [destruct H; assumption|exact I].
   - (* PLambda *) nstart.
-    rewrite (params_names PO po _ eq_refl H ltac:(assumption) ltac:(assumption) E).
-    rewrite (params_names PK pk _ eq_refl H0 ltac:(assumption) ltac:(assumption) E0).
-    rewrite (params_names KO ko _ eq_refl H1 ltac:(assumption) ltac:(assumption) E1).
+    rewrite (params_names PO po _ xj xf eq_refl H ltac:(assumption) ltac:(assumption) E).
+    rewrite (params_names PK pk _ xj xf eq_refl H0 ltac:(assumption) ltac:(assumption) E0).
+    rewrite (params_names KO ko _ xj xf eq_refl H1 ltac:(assumption) ltac:(assumption) E1).
     destruct vp, vk; cbn [flat_map fst snd is_variadic app]; rewrite ?app_nil_r, <- ?app_assoc; reflexivity.
   - (* PParam *) split; [intros c g Hc Hwf; discriminate Hwf|]. destruct d; simpl in *; [destruct H; assumption|exact I].
   - (* PFormattedValue *) destruct H as [Hv _].
